@@ -100,8 +100,18 @@ Fixpoint remove_addr (t : addr) (l : list addr) : list addr :=
 
 (* (a stale Token(i) slot past the end is a disagreement with the model - the diff compares
    [o_past] - but not a violation of the property: the enumeration is Token(0..count-1)) *)
+(* the observation has the shape the header announces (one entry per listed token / holder /
+   owner x spender / target) *)
+Definition shape_ok (c : cfg) (o : obs) : bool :=
+  Nat.eqb (length (o_toks o)) (length (c_tokens c))
+  && forallb (fun t => Nat.eqb (length (ob_bal t)) (length (c_holders c))
+                       && Nat.eqb (length (ob_alw t)) (length (c_owners c))
+                       && forallb (fun r => Nat.eqb (length r) (length (c_spenders c))) (ob_alw t)) (o_toks o)
+  && Nat.eqb (length (o_logs o)) (length (c_targets c)).
+
 Definition al_consistent (c : cfg) (S : list addr) (o : obs) : bool :=
   let ts := strip (o_enum o) in
+  shape_ok c o &&
   N.eqb (o_count o) (N.of_nat (length (o_enum o)))
   && forallb is_some (o_enum o)
   && nodupb ts && forallb (fun t => memb t S) ts && forallb (fun t => memb t ts) S
@@ -119,52 +129,110 @@ Definition al_consistent (c : cfg) (S : list addr) (o : obs) : bool :=
 Definition expire_ok (nw : Z) (x y : Z * Z) : bool :=
   if 0 <? fst x then zz_eqb y (if snd x <? nw then (0, 0) else x) else fst y =? 0.
 
-Definition fwd_cell (ap : approval) (au : list entry) (tok user F : addr) (fee max exp : Z)
-  (t o s : addr) (x y : Z * Z) : bool :=
-  if N.eqb t tok && N.eqb o user && N.eqb s F then
-    let need := match ap with Eager => true | Lazy => fst x <? max end in
-    if need
-    then zz_eqb y (max - fee, exp)
-         && has_sub_or_root au user (mkf tok F_APPROVE (approve_args user F max exp))
-    else zz_eqb y (fst x - fee, snd x)
-  else zz_eqb x y.
+(* ---- forward ---- *)
+(* the fee part: what the (user -> forwarder) allowance on the fee token must read after the fee has
+   been collected, given what it read before ([need] = a fresh approval was due) *)
+Definition fee_need (ap : approval) (max : Z) (x : Z * Z) : bool :=
+  match ap with Eager => true | Lazy => fst x <? max end.
+Definition is_fee_cell (tok user F t o s : addr) : bool := N.eqb t tok && N.eqb o user && N.eqb s F.
+Definition fee_value (ap : approval) (tok user F : addr) (fee max exp : Z) (t o s : addr) (x : Z * Z) : Z * Z :=
+  if is_fee_cell tok user F t o s
+  then (if fee_need ap max x then (max - fee, exp) else (fst x - fee, snd x))
+  else x.
 
+(* a fresh approval is authorised UNDER the user's signed forward tree: token.approve(user, F, max,
+   exp) is a direct sub-invocation of an entry signed by the user whose root is the forward tuple
+   [f2] (or, when user = relayer, the relayer's argument list [f1]) *)
+Definition approve_under_tree (au : list entry) (user relayer : addr) (f1 f2 ap : func) : bool :=
+  existsb (fun e => N.eqb (en_who e) user
+                    && existsb (fun s => func_eqb s ap) (en_subs e)
+                    && (func_eqb (en_root e) f2 || (N.eqb user relayer && func_eqb (en_root e) f1))) au.
+
+Definition transfer_delta (tok from to : addr) (amt : Z) (t h : addr) : Z :=
+  if N.eqb t tok then (if N.eqb h to then amt else 0) - (if N.eqb h from then amt else 0) else 0.
 Definition transfer_bal (tok from to : addr) (amt : Z) (t h : addr) (x y : Z) : bool :=
-  y =? x + (if N.eqb t tok then (if N.eqb h to then amt else 0) - (if N.eqb h from then amt else 0) else 0).
+  y =? x + transfer_delta tok from to amt t h.
+
+(* the target part, when the target is itself a fee token: the token function the forwarder is
+   made to call moves [amt] from [from] to [to], spending [from]'s allowance to [sp] if it is a
+   transfer_from: (from, to, amt, sp) *)
+Definition tgt_moves (c : cfg) (target : addr) (fn : N) (args : list atom)
+  : option (addr * addr * Z * option addr) :=
+  if memb target (c_tokens c) then
+    match args with
+    | [AA spender; AA from; AA to; AI amt] =>
+        if N.eqb fn F_TRANSFER_FROM then Some (from, to, amt, Some spender) else None
+    | [AA from; AA to; AI amt] => if N.eqb fn F_TRANSFER then Some (from, to, amt, None) else None
+    | _ => None
+    end
+  else None.
+Definition tgt_delta (mv : option (addr * addr * Z * option addr)) (target t h : addr) : Z :=
+  match mv with Some (from, to, amt, _) => transfer_delta target from to amt t h | None => 0 end.
+Definition tgt_alw (mv : option (addr * addr * Z * option addr)) (target t o s : addr) (z : Z * Z) : Z * Z :=
+  match mv with
+  | Some (from, _, amt, Some sp) =>
+      if N.eqb t target && N.eqb o from && N.eqb s sp && (0 <? amt) then (fst z - amt, snd z) else z
+  | _ => z
+  end.
 
 (* what the harness target logs for a call: a re-entering function also logs the result of the call
    it made into the fee token / the forwarder, and that result must be 0 (refused and rolled back) *)
 Definition expected_entry (fn : N) (args : list atom) : logent :=
   if is_script fn then (fn, args ++ [AI 0]) else (fn, args).
 
-(* well-formedness of a call (a boolean the harness inputs satisfy): when the forwarded target
-   function re-enters a fee token, NOBODY among the signers of this call authorised that inner
-   call (and its principal is not the target itself) - the inner call is "on behalf of nobody" *)
+Definition recipient_of (c : cfg) (k : kind) (relayer : addr) : addr :=
+  match k with Permissioned => fwd_addr c k | Permissionless => relayer end.
+
+(* Well-formedness of a call: a boolean that [check] EVALUATES on every call of a trace (a call
+   that is not well-formed is a monitor failure, never silently monitored).
+   (1) Every principal whose balance / allowance the call can move is in the observed tables of the
+       header (otherwise the per-cell clauses would be vacuous for it).
+   (2) When the forwarded target function re-enters a fee token from inside, NOBODY among the
+       signers of this call authorised that inner call and its principal is not the target itself
+       (the inner call is "on behalf of nobody"). *)
 Definition wf_call (c : cfg) (cl : call) : bool :=
   match cl with
+  | Advance _ => true
+  | Mint tok to amt => memb to (c_holders c)
+  | Approve tok owner spender amt exp au => memb owner (c_owners c) && memb spender (c_spenders c)
+  | SetTok _ _ _ _ => true
+  | Sweep tok recipient operator au => memb (c_fp c) (c_holders c) && memb recipient (c_holders c)
   | Forward k tok fee max exp target fn args user relayer au =>
-      match args with
-      | [AA tk; AA spender; AA from; AA to; AI amt; AI sw] =>
-          negb (N.eqb fn F_PULL)
-          || (negb (N.eqb target spender)
-              && negb (has_sub_or_root au spender (mkf tk F_TRANSFER_FROM [VA spender; VA from; VA to; VI amt])))
-      | [AA tk; AA owner; AA spender; AI amt; AI exp'; AI sw] =>
-          negb (N.eqb fn F_APPROVE_FOR)
-          || (negb (N.eqb target owner)
-              && negb (has_sub_or_root au owner (mkf tk F_APPROVE (approve_args owner spender amt exp'))))
-      | _ => true
-      end
-  | _ => true
+      let F := fwd_addr c k in
+      (* a forward whose user is the forwarder itself can only fail *)
+      (N.eqb F user
+       || (memb user (c_holders c) && memb user (c_owners c) && memb (recipient_of c k relayer) (c_holders c)
+           && memb F (c_spenders c)
+           && match tgt_moves c target fn args with
+              | Some (from, to, _, sp) =>
+                  memb from (c_holders c) && memb to (c_holders c)
+                  && match sp with Some s => memb from (c_owners c) && memb s (c_spenders c) | None => true end
+              | None => true
+              end))
+      && match args with
+         | [AA tk; AA spender; AA from; AA to; AI amt; AI sw] =>
+             negb (N.eqb fn F_PULL)
+             || (negb (N.eqb target spender)
+                 && negb (has_sub_or_root au spender (mkf tk F_TRANSFER_FROM [VA spender; VA from; VA to; VI amt])))
+         | [AA tk; AA owner; AA spender; AI amt; AI exp'; AI sw] =>
+             negb (N.eqb fn F_APPROVE_FOR)
+             || (negb (N.eqb target owner)
+                 && negb (has_sub_or_root au owner (mkf tk F_APPROVE (approve_args owner spender amt exp'))))
+         | _ => true
+         end
   end.
 
 Definition mon_forward (c : cfg) (prev cur : obs) (k : kind) (tok : addr) (fee max exp : Z)
   (target : addr) (fn : N) (args : list atom) (user relayer : addr) (au : list entry) (ret : Z) : bool :=
   let F := fwd_addr c k in
-  let recipient := match k with Permissioned => F | Permissionless => relayer end in
+  let recipient := recipient_of c k relayer in
+  let f1 := mkf F F_FORWARD (forward_args tok fee max exp target fn args user relayer) in
+  let f2 := mkf F F_FORWARD (user_args tok max exp target fn args) in
+  let mv := tgt_moves c target fn args in
   (* the user's authorisation over the fee token, the maximum fee, the expiration ledger and the
      exact target contract, function and arguments; the relayer's over the whole call *)
-  has_root au user (mkf F F_FORWARD (user_args tok max exp target fn args))
-  && has_root au relayer (mkf F F_FORWARD (forward_args tok fee max exp target fn args user relayer))
+  has_root au user f2
+  && has_root au relayer f1
   && (match k with Permissioned => memb relayer (c_executors c) | Permissionless => true end)
   (* the fee is positive and at most the authorised maximum; the authorisation has not expired *)
   && (0 <? fee) && (fee <=? max) && (o_now prev <=? exp)
@@ -175,16 +243,33 @@ Definition mon_forward (c : cfg) (prev cur : obs) (k : kind) (tok : addr) (fee m
       | Permissionless => true
       end)
   && memb tok (c_tokens c)
-  (* exactly the fee leaves the user and reaches the recipient, nobody else is touched; the
-     allowance changes as the approval strategy says (and a fresh approval is authorised) *)
-  && toks_rel c same_total (transfer_bal tok user recipient fee)
-       (fwd_cell (approval_of k) au tok user F fee max exp) prev cur
-  (* exactly that target call, once - and whatever the target tried on the fee token from inside
-     was refused (the balances / allowances above already leave no room for an extra debit) *)
-  && memb target (c_targets c)
-  && logs_rel c (fun g x y => if N.eqb g target
-                              then list_eqb logent_eqb y (x ++ [expected_entry fn args]) && (ret =? Z.of_nat (length y))
-                              else list_eqb logent_eqb x y) prev cur
+  (* exactly the fee leaves the user and reaches the recipient; beyond that only what the signed
+     target call itself moves (nothing, unless the target is a fee token); nobody else is touched.
+     The allowance (user -> forwarder) changes as the approval strategy says (a fresh approval being
+     authorised under the user's forward tree), then as the signed target call says. *)
+  && toks_rel c same_total
+       (fun t h x y => y =? x + transfer_delta tok user recipient fee t h + tgt_delta mv target t h)
+       (fun t o s x y =>
+          (* the property does not fix the order of fee collection and target call: either composition
+             is accepted (the code collects the fee first; a change of order is left to the diff) *)
+          let ok_after x0 :=
+            if is_fee_cell tok user F t o s && fee_need (approval_of k) max x0
+            then approve_under_tree au user relayer f1 f2 (mkf tok F_APPROVE (approve_args user F max exp))
+            else true in
+          (zz_eqb y (tgt_alw mv target t o s (fee_value (approval_of k) tok user F fee max exp t o s x))
+           && ok_after x)
+          || (zz_eqb y (fee_value (approval_of k) tok user F fee max exp t o s (tgt_alw mv target t o s x))
+              && ok_after (tgt_alw mv target t o s x)))
+       prev cur
+  (* exactly that target call, once: a harness target logs it (and whatever it tried on the fee token
+     from inside was refused); a fee token as target shows it by the movement above *)
+  && (if memb target (c_tokens c)
+      then is_some mv && logs_rel c same_log prev cur && (ret =? 0)
+      else memb target (c_targets c)
+           && logs_rel c (fun g x y => if N.eqb g target
+                                       then list_eqb logent_eqb y (x ++ [expected_entry fn args])
+                                            && (ret =? Z.of_nat (length y))
+                                       else list_eqb logent_eqb x y) prev cur)
   && (o_now cur =? o_now prev) && al_obs_eqb prev cur.
 
 Definition mon_call (c : cfg) (S : list addr) (prev cur : obs) (cl : call) (ret : Z) : bool * list addr :=
@@ -230,6 +315,7 @@ Definition mon_call (c : cfg) (S : list addr) (prev cur : obs) (cl : call) (ret 
    allow-list observation always matches the set of tokens allowed and not since removed *)
 Definition mon_step (c : cfg) (S : list addr) (prev : obs) (it : item) : bool * list addr :=
   let '(cl, out, cur) := it in
+  if negb (wf_call c cl) then (false, S) else
   match out with
   | Fail => (obs_eqb prev cur && al_consistent c S cur, S)
   | Ok ret => let '(b, S') := mon_call c S prev cur cl ret in (b && al_consistent c S' cur, S')
@@ -244,7 +330,7 @@ Fixpoint mon_from (c : cfg) (S : list addr) (prev : obs) (l : list item) (i : N)
   end.
 Definition mon (t : trace) : N :=
   let '(c, o0, l) := t in
-  if al_consistent c [] o0 then mon_from c [] o0 l 0%N else 1%N.
+  if al_consistent c [] o0 && (o_now o0 =? c_start c) then mon_from c [] o0 l 0%N else 1%N.
 
 Definition check (t : trace) : verdict := (diff t, mon t, 0%N).
 Definition check_all (ts : list trace) : list verdict := map check ts.
